@@ -72,7 +72,7 @@ Proof. vm_compute. repeat split. Qed.
 
 (* ===================== time scale part (built by the time package) ========= *)
 (* Property C14, TIME part (TimeScale.nice); the linear part belongs to the
-   scale package.  Statements only; meant to be merged into Props/C14.v.
+   scale package.  Statements only; merged into Props/C14.v (Module TimePart).
 
    `ts_nice d0 d1 m` is the model of TimeScale().domain([d0, d1]).nice(m).domain()
    (m = 10 when omitted) in Time/TimeNice.v; `aligned meth x` (TimeNiceProofs.v)
